@@ -1,7 +1,9 @@
 (* C17/Model.v -- executable model of the layered http connections of
    ak/conn_http.py (RequestArguments, adapters, _HttpConnBase wrappers,
-   _HttpConnImpl.do_request) and ak/mcaller_http.py (MCallerHttp.__init__,
-   clone, get_conn with the per-caller cache of prefixed connections).
+   _HttpConnImpl.do_request: request assembly AND the response path -- opener
+   answer, raw_response, decoding, the process_response loop, the returned
+   value) and ak/mcaller_http.py (MCallerHttp.__init__, clone, get_conn with
+   the per-caller cache of prefixed connections).
 
    The property is about aliasing, so mutable python objects are cells of a
    HEAP addressed by references: adapter lists (conn.adapters, lists passed
@@ -24,8 +26,8 @@ Local Notation "x >>= f" := (bind x f) (at level 50, left associativity).
 
 (* RequestAdapter objects (immutable).  ATag is the harness's own subclass of
    RequestAdapter: process_req_args appends chr(k) to header 'X-Tag',
-   process_response records k (it makes "applied exactly once, in which
-   order" observable). *)
+   process_response records k and returns Marked(k, value) (it makes "applied
+   exactly once, in which order" observable on both paths). *)
 Inductive adapter :=
 | APrefix (p : str)                       (* RequestAdapterAddPathPrefix *)
 | ABasic (login pass : str)               (* BAuthConn.Adapter *)
@@ -155,6 +157,96 @@ Fixpoint apply_adapters (ads : list adapter) (h : heap) (ra : rargs) : heap * re
   end.
 
 (* ------------------------------------------------------------------ *)
+(* the response path (conn_http.py:178-203)                             *)
+
+(* the answer of the (substitute) opener: status code, body bytes, and -- an
+   oracle value supplied by the harness, as json.dumps is for bodies -- the
+   canonical json.dumps(json.loads(text), sort_keys=True) of the body text
+   (None: json.loads raises).  The Content-Type of the response is an input of
+   the generated cases that the code never looks at, hence not a field. *)
+Record response := { r_code : Z; r_body : list Z; r_json : option str }.
+
+(* what a request returns to its caller *)
+Inductive rval :=
+| RText (s : str)                   (* a python str; the code only ever returns '' this way (empty body) *)
+| RJson (js : str)                  (* json.loads(text), as its canonical json text *)
+| RRaw (code : Z) (body : list Z)   (* raw_response=True: the response object itself (response.data = body) *)
+| RMark (k : Z) (v : rval).         (* TagAdapter.process_response: Marked(k, v) *)
+
+(* bytes.decode('utf-8') as python does it: strict (continuation bytes, overlong forms, surrogates and
+   code points above 0x10FFFF are refused); None = UnicodeDecodeError *)
+Definition is_cont (b : Z) : bool := (128 <=? b) && (b <=? 191).
+Fixpoint utf8_strict (fuel : nat) (l : list Z) : option str :=
+  match fuel with
+  | O => match l with [] => Some [] | _ => None end
+  | S f =>
+    match l with
+    | [] => Some []
+    | a :: r =>
+      if (a <? 0) then None
+      else if a <? 128 then option_map (cons a) (utf8_strict f r)
+      else if a <? 194 then None
+      else if a <? 224 then
+        match r with
+        | b :: r' => if is_cont b then option_map (cons ((a - 192) * 64 + (b - 128))) (utf8_strict f r') else None
+        | _ => None
+        end
+      else if a <? 240 then
+        match r with
+        | b :: c :: r' =>
+            let cp := (a - 224) * 4096 + (b - 128) * 64 + (c - 128) in
+            if is_cont b && is_cont c && (2048 <=? cp) && negb ((55296 <=? cp) && (cp <=? 57343))
+            then option_map (cons cp) (utf8_strict f r') else None
+        | _ => None
+        end
+      else if a <? 245 then
+        match r with
+        | b :: c :: d :: r' =>
+            let cp := (a - 240) * 262144 + (b - 128) * 4096 + (c - 128) * 64 + (d - 128) in
+            if is_cont b && is_cont c && is_cont d && (65536 <=? cp) && (cp <=? 1114111)
+            then option_map (cons cp) (utf8_strict f r') else None
+        | _ => None
+        end
+      else None
+    end
+  end.
+Definition decode_utf8 (l : list Z) : option str := utf8_strict (length l) l.
+
+(* `self.opener.open(request)`: urllib raises HTTPError for error statuses (the substitute opener: >= 400);
+   do_request logs and re-raises it (class HTTPError: none of Common/Err's names, hence OtherErr) *)
+Definition opener_open (resp : response) : res response :=
+  if 400 <=? r_code resp then Err OtherErr else Ok resp.
+
+(* if not raw_response: ret_val = response.data.decode('utf-8'); if ret_val: ret_val = json.loads(ret_val)
+   else: ret_val = response *)
+Definition response_base (raw : bool) (resp : response) : res rval :=
+  if raw then Ok (RRaw (r_code resp) (r_body resp))
+  else match decode_utf8 (r_body resp) with
+       | None => Err ValueErr                               (* UnicodeDecodeError *)
+       | Some [] => Ok (RText [])
+       | Some (_ :: _) => match r_json resp with
+                          | Some js => Ok (RJson js)
+                          | None => Err ValueErr            (* json.JSONDecodeError *)
+                          end
+       end.
+
+(* adapter.process_response(ret_val): RequestAdapter's default returns the value as is (the four adapters of
+   conn_http.py do not override it); the harness's TagAdapter wraps it *)
+Definition adapter_post (a : adapter) (v : rval) : rval :=
+  match a with ATag k => RMark k v | _ => v end.
+
+(* for adapter in adapters[::-1]: ret_val = adapter.process_response(ret_val)
+   (resp_reversed = false models a loop over `adapters`) *)
+Definition post_loop (ads : list adapter) (v : rval) : rval :=
+  fold_left (fun v a => adapter_post a v) (if resp_reversed then rev ads else ads) v.
+
+(* everything behind the Request: the opener's answer, decoding, the processors -- raw or not *)
+Definition respond (ads : list adapter) (raw : bool) (resp : response) : res rval :=
+  opener_open resp >>= fun r =>
+  response_base raw r >>= fun b =>
+  Ok (post_loop ads b).
+
+(* ------------------------------------------------------------------ *)
 (* _HttpConnImpl.do_request                                             *)
 
 Record captured := {               (* the urllib Request handed to the opener + processing order of the response *)
@@ -219,7 +311,9 @@ Record reqargs := {
   a_meth : option str;
   a_params : option ref;
   a_data : option ref;
-  a_headers : option ref
+  a_headers : option ref;
+  a_raw : bool;                (* raw_response *)
+  a_resp : response            (* what the opener will answer (environment of the call) *)
 }.
 
 Definition read_params (h : heap) (r : option ref) : res (option (list (str * str))) :=
@@ -248,7 +342,7 @@ Definition init_headers (h : heap) (hdrs : option ref) : res (heap * ref) :=
   end.
 
 Definition do_request (h : heap) (addr : str) (send_ids : bool) (ads : list adapter) (q : reqargs)
-  : heap * res captured :=
+  : heap * res (captured * rval) :=
   match init_headers h (a_headers q) with
   | Err e => (h, Err e)
   | Ok (h0, hr) =>
@@ -258,14 +352,15 @@ Definition do_request (h : heap) (addr : str) (send_ids : bool) (ads : list adap
           match read_params h1 (a_params q), read_body h1 (a_data q), hget h1 (r_hdr ra) with
           | Ok params, Ok data, Some (CHeaders d) =>
               let '(d', cap) := assemble addr send_ids ads (r_path ra) (a_meth q) params data d in
-              (hset h1 (r_hdr ra) (CHeaders d'), Ok cap)
+              (hset h1 (r_hdr ra) (CHeaders d'),
+               respond ads (a_raw q) (a_resp q) >>= fun v => Ok (cap, v))
           | _, _, _ => (h1, Err OtherErr)
           end
       end
   end.
 
 (* conn.get/post/... : self.conn_impl.do_request(self.adapters, path, "GET", ...) *)
-Definition conn_request (h : heap) (c : connv) (q : reqargs) : heap * res captured :=
+Definition conn_request (h : heap) (c : connv) (q : reqargs) : heap * res (captured * rval) :=
   match hget h (conn_lref c) with
   | Some (CAdapters ads) => let '(addr, sids) := conn_root c in do_request h addr sids ads q
   | _ => (h, Err OtherErr)
@@ -327,7 +422,9 @@ Record reqspec := {
   s_path : str;
   s_params : option nat;      (* indices of caller objects *)
   s_data : option nat;
-  s_headers : option nat
+  s_headers : option nat;
+  s_raw : bool;
+  s_resp : response
 }.
 
 Inductive op :=
@@ -342,7 +439,8 @@ Inductive op :=
 | OCall (m : nat) (comps : option (list str)) (q : reqspec)   (* wrapper method: self.get_conn().<verb>(...) *)
 | OAddAdapter (c : nat) (a : adapter).
 
-Inductive obsv := OUnit | OReq (c : captured).
+(* a request observes the Request handed to the opener and the value returned to the caller *)
+Inductive obsv := OUnit | OReq (c : captured) (v : rval).
 
 Definition upd_heap (st : state) (h : heap) : state :=
   {| heap_of := h; cobjs := cobjs st; conns := conns st; callers := callers st |}.
@@ -365,7 +463,8 @@ Definition resolve (st : state) (q : reqspec) : res reqargs :=
   cobj_ref st (s_params q) >>= fun p =>
   cobj_ref st (s_data q) >>= fun d =>
   cobj_ref st (s_headers q) >>= fun hd =>
-  Ok {| a_path := s_path q; a_meth := m; a_params := p; a_data := d; a_headers := hd |}.
+  Ok {| a_path := s_path q; a_meth := m; a_params := p; a_data := d; a_headers := hd;
+        a_raw := s_raw q; a_resp := s_resp q |}.
 
 (* the `adapters` argument -> python list value *)
 Definition adarg_list (st : state) (ad : adarg) : res (list adapter) :=
@@ -478,7 +577,7 @@ Definition step (st : state) (o : op) : state * res obsv :=
       match nth_error (conns st) i, resolve st q with
       | Some c, Ok ra =>
           let '(h, r) := conn_request (heap_of st) c ra in
-          (upd_heap st h, match r with Ok cap => Ok (OReq cap) | Err e => Err e end)
+          (upd_heap st h, match r with Ok (cap, v) => Ok (OReq cap v) | Err e => Err e end)
       | _, _ => (st, Err OtherErr)
       end
   | OCall i comps q =>
@@ -488,7 +587,7 @@ Definition step (st : state) (o : op) : state * res obsv :=
           | Err e => (st, Err e)
           | Ok (h, m', c) =>
               let '(h', r) := conn_request h c ra in
-              (set_caller st i m' h', match r with Ok cap => Ok (OReq cap) | Err e => Err e end)
+              (set_caller st i m' h', match r with Ok (cap, v) => Ok (OReq cap v) | Err e => Err e end)
           end
       | _, _ => (st, Err OtherErr)
       end
